@@ -17,7 +17,7 @@ Proof.
   - destruct (irun_forest (t0 :: f') [] None) as [c Hrun]; [congruence|].
     destruct (gen_loop_items rows p0 _ st' g0 Hp eq_refl _ Hrun) as [s' [Hl [Hi _]]].
     rewrite Hl. unfold ist_of in Hi. inversion Hi as [[Hd Hc]]. cbn [gr_end gr_done gr_pending].
-    rewrite Hd, Hc. rewrite app_nil_r, rev_involutive. cbn [opt_list].
+    rewrite Hd, Hc. rewrite frev_rev, app_nil_r, rev_involutive. cbn [opt_list].
     assert (E : map trie_of (removelast (t0 :: f')) ++ [trie_of (last (t0 :: f') (T [] []))] = map trie_of (t0 :: f')).
     { rewrite (app_removelast_last (T [] []) (l := t0 :: f')) at 3 by congruence.
       rewrite map_app. reflexivity. }
